@@ -1,5 +1,13 @@
 """Predicates for known findings: one per mechanism key.  See known.py."""
+import json
+
 from .known import pred
+
+_ROWSET = ("non_qualifying_row_returned", "qualifying_row_not_returned", "count_differs_from_rows_returned", "row_duplicated_or_unknown",
+           "rows_out_of_order")
+_ALIGN = ("misaligned_cells", "misaligned_row_count", "misaligned_dtype", "cells", "row_count", "mask_read_raised")
+
+
 
 
 @pred("zero-row-categorical-labels-not-stored")
@@ -85,9 +93,12 @@ def _not_in(prop, case, f):
     return False
 
 
-@pred("in-filter-tz-aware-constants-never-equal-naive-statistics")
+@pred("tz-aware-constants-compared-with-naive-values")
 def _in_tz(prop, case, f):
     # statistics of a tz-aware column decode to naive datetime64; `vmax not in values` with tz-aware Timestamps is always True
+    if prop == "C13":
+        # row stage: df[name].values of a tz-aware column is naive UTC, so ==/in never match and != always matches
+        return f.get("kind") in _ROWSET and "tz=" in json.dumps(f.get("program"))
     if f.get("kind") != "unsound_decision" or f.get("op") not in ("in",) or f.get("func") != "filter_out_stats":
         return False
     dt = f.get("col_dtype", "")
@@ -107,3 +118,35 @@ def _nul(prop, case, f):
         bounds = {f.get("chunk_min"), f.get("chunk_max")}
         return any(isinstance(e, str) and e.startswith("str:") and e.endswith("\\x00'") and repr(eval(e[4:]).rstrip("\x00")) in bounds for e in c)
     return isinstance(c, str) and c.startswith("str:") and c.endswith("\\x00'")
+
+
+@pred("row-filter-ignores-partition-conditions")
+def _rf_part(prop, case, f):
+    # api._column_filter skips every condition on a partition column (`continue`): inside an AND-group it counts as true,
+    # a group made only of partition conditions selects nothing
+    return prop == "C13" and bool(f.get("partition_condition")) and f.get("kind") in _ROWSET
+
+
+@pred("row-filter-v2-pages")
+def _rf_v2(prop, case, f):
+    # read_data_page_v2 receives the whole row-group filter and the compact output: with nulls (definition levels decoded into
+    # the compact mask) or several pages the selection is misapplied or raises IndexError/ValueError
+    if prop != "C13" or f.get("dpv") != 2:
+        return False
+    if f.get("kind") == "mask_read_raised" and f.get("where") == "core.py:read_data_page_v2":
+        return True
+    return f.get("kind") in _ALIGN or (f.get("kind") in _ROWSET and bool(f.get("read_columns_multi_page")))
+
+
+@pred("row-filter-not-in-pruning")
+def _rf_notin(prop, case, f):
+    # same mechanism as not-in-filter-prunes-when-a-chunk-bound-is-listed, seen through the row filter's first pass
+    return prop == "C13" and f.get("kind") == "qualifying_row_not_returned" and "not in" in (f.get("ops") or [])
+
+
+@pred("row-filter-constants-with-nul")
+def _rf_nul(prop, case, f):
+    # numpy turns a str/bytes scalar into a fixed-width array element, dropping trailing NULs, when comparing with an object column
+    if prop != "C13" or f.get("kind") not in _ROWSET:
+        return False
+    return "\\x00" in json.dumps(f.get("program"))
